@@ -208,16 +208,9 @@ func (a *pwaligner) fillMatrix_SW() (err error) {
 			a.trace[0][j] = ALIGN_DIAG // TO REVIEW
 		}
 
-		if j > 0 {
-			a.maxa[j] = a.matrix[0][j]
-			if a.trace[0][j-1] == ALIGN_LEFT {
-				a.maxa[j] += a.gapextend
-			} else {
-				a.maxa[j] += a.gapopen
-			}
-		} else {
-			a.maxa[j] = a.matrix[0][j] + a.gapopen
-		}
+		// A gap going down from the first row is always a gap opening,
+		// whatever the way the previous cell of the row has been reached
+		a.maxa[j] = a.matrix[0][j] + a.gapopen
 	}
 
 	// First column
